@@ -722,7 +722,8 @@ type HdrPkt struct {
 	CC   string `json:"cc"`            // "+1" | "dup" | "gap"
 	Gap  int    `json:"gap,omitempty"` // gap: counter advance (2..15)
 	PUSI bool   `json:"pusi,omitempty"`
-	Kind string `json:"kind"` // payload | afonly | tei | disc
+	Kind string `json:"kind"`          // payload | afonly | tei | disc
+	PCR  bool   `json:"pcr,omitempty"` // payload / disc packets: the adaptation field also carries a PCR
 }
 
 var hdrPIDs = []uint16{0x100, 0x101, 0x1abc}
@@ -747,6 +748,9 @@ func genHeaders(r *core.PRNG) []HdrPkt {
 			h.Kind = "tei"
 		case 3:
 			h.Kind = "disc"
+		}
+		if h.Kind == "disc" || h.Kind == "payload" {
+			h.PCR = r.Chance(1, 3)
 		}
 		out = append(out, h)
 	}
@@ -837,6 +841,15 @@ func buildHeaders(hs []HdrPkt) (pk [][]byte, want map[uint16][]hdrUnit, stats ma
 				gap = true
 			}
 			stats["disc"]++
+		}
+		if h.PCR && (h.Kind == "disc" || h.Kind == "payload") {
+			if p.AF == nil {
+				p.AFC = 3
+				p.AF = &refts.AF{}
+			}
+			p.AF.PCR = &refts.Clock{Base: uint64(1000 + 300*gi), Ext: uint16(gi % 300)}
+			size = 184 - 8
+			stats["pcr"]++
 		}
 		for len(body) < size {
 			body = append(body, PayloadByte(1000+gi, len(body)))
